@@ -147,3 +147,14 @@ Proof. cbn. lia. Qed.
 Lemma be6 a b c d e f : be [a;b;c;d;e;f] =
   a * 1099511627776 + b * 4294967296 + c * 16777216 + d * 65536 + e * 256 + f.
 Proof. cbn. lia. Qed.
+
+Lemma lxor_add x y k : x mod 2^k = 0 -> y < 2^k -> N.lxor x y = x + y.
+Proof.
+  intros Hx Hy. rewrite <- (lor_add x y k Hx Hy). apply N.lxor_lor.
+  apply N.bits_inj_0; intros n; rewrite N.land_spec.
+  destruct (N.lt_ge_cases n k) as [H|H].
+  - rewrite <- (N.mod_pow2_bits_low x k n H), Hx, N.bits_0. reflexivity.
+  - destruct (N.eq_dec y 0) as [->|Hz]; [rewrite N.bits_0; apply Bool.andb_false_r|].
+    rewrite (N.bits_above_log2 y n); [apply Bool.andb_false_r|].
+    apply N.log2_lt_pow2 in Hy; lia.
+Qed.
